@@ -183,11 +183,13 @@ fn run_in_runtime<W: World>(cfg: &W::Cfg, prefix: &[u8], trace: bool) -> Result<
 pub fn run_one<W: World>(cfg: &W::Cfg, prefix: &[u8], trace: bool) -> Result<ExecRecord, String> {
     let cfg = cfg.clone();
     let prefix = prefix.to_vec();
-    let h = std::thread::Builder::new()
+    let prefix_copy = prefix.clone();
+    let (tx, rx) = std::sync::mpsc::channel();
+    std::thread::Builder::new()
         .stack_size(8 << 20)
         .spawn(move || {
             let r = std::panic::catch_unwind(std::panic::AssertUnwindSafe(|| run_in_runtime::<W>(&cfg, &prefix, trace)));
-            match r {
+            let r = match r {
                 Ok(r) => r,
                 Err(p) => {
                     let msg = if let Some(s) = p.downcast_ref::<&str>() {
@@ -199,10 +201,28 @@ pub fn run_one<W: World>(cfg: &W::Cfg, prefix: &[u8], trace: bool) -> Result<Exe
                     };
                     Err(format!("panic: {}", msg))
                 }
-            }
+            };
+            let _ = tx.send(r);
         })
         .map_err(|e| format!("spawn: {}", e))?;
-    h.join().map_err(|_| "execution thread died".to_string())?
+    // Watchdog: a subject that spins inside a single poll never hands control back to the step
+    // horizon. The execution thread is abandoned (it cannot be killed) and the execution is
+    // reported as a termination violation.
+    let limit = std::env::var("VERIF_EXEC_TIMEOUT_S").ok().and_then(|s| s.parse::<u64>().ok()).unwrap_or(30);
+    match rx.recv_timeout(std::time::Duration::from_secs(limit)) {
+        Ok(r) => r,
+        Err(std::sync::mpsc::RecvTimeoutError::Timeout) => {
+            let mut rec = ExecRecord::default();
+            rec.choices = prefix_copy.clone();
+            rec.nenabled = vec![1; prefix_copy.len()];
+            rec.outcome.violations.push((
+                "execution did not return: the subject spins inside one poll (livelock)".to_string(),
+                format!("no result within {} s; schedule prefix {:?}", limit, prefix_copy),
+            ));
+            Ok(rec)
+        }
+        Err(std::sync::mpsc::RecvTimeoutError::Disconnected) => Err("execution thread died".to_string()),
+    }
 }
 
 #[derive(Debug, Default, Clone)]
